@@ -412,16 +412,19 @@ def grain_run(cfg):
     mu, s = cfg['mu'], cfg['s']
     m.LoadDistributionFunction(lambda R: np.exp(-0.5 * ((np.log(R) - np.log(mu)) / s) ** 2) / R)
     recs = []
-    orig = m.getDt
+    pbm0 = m.pbm
+    orig = pbm0.getDTEuler
 
-    def obs(dXdt):
-        dt = orig(dXdt)
+    def obs(currDT, growth, dissolutionIndex, *a, **k):
+        # public PBM method, wrapped on the instance: the model hands over the growth field and the index it keeps
+        dt = orig(currDT, growth, dissolutionIndex, *a, **k)
         pbm = m.pbm
         recs.append({'kind': 'run:' + cfg['name'], 'n': int(pbm.bins), 'bounds': [float(x) for x in pbm.PSDbounds], 'psd': [float(x) for x in pbm.PSD],
-                     'g': [float(x) for x in m._growthRate], 'dt': float(dt), 'nuc': 0.0, 'rn': 0.0, 'cur': float(m.finalTime - m.time[-1]),
-                     'mr': 0.4, 'md': float(m.maxDissolution), 'd': int(m.dissolutionIndex), 'mi': 0, 'time': float(m.time[-1]), 'step': len(recs)})
+                     'g': [float(x) for x in np.asarray(growth, dtype=float)], 'dt': float(dt), 'nuc': 0.0, 'rn': 0.0, 'cur': float(currDT),
+                     'mr': float(k.get('maxBinRatio', a[0] if a else 0.4)), 'md': float(m.maxDissolution), 'd': int(dissolutionIndex), 'mi': 0,
+                     'time': float(m.time[-1]), 'step': len(recs)})
         return dt
-    m.getDt = obs
+    pbm0.getDTEuler = obs
     with contextlib.redirect_stdout(io.StringIO()):
         m.solve(cfg['time'], solverType=getattr(SolverType, cfg['solver']), verbose=False)
     return recs
